@@ -51,17 +51,100 @@ pub const VEC_ELEM_CAP: usize = 9;
 #[cfg(kani)]
 pub fn stub_vec_from_elem<T: Clone>(elem: T, n: usize) -> Vec<T> {
   kani::assume(n <= VEC_ELEM_CAP);
-  let mut v = Vec::with_capacity(VEC_ELEM_CAP);
-  let mut i = 0;
-  while i < VEC_ELEM_CAP {
-    if i < n {
-      v.push(elem.clone());
-    }
-    i += 1;
+  let mut v: Vec<T> = Vec::with_capacity_in(VEC_ELEM_CAP, std::alloc::Global);
+  // hand-unrolled (no loop: a loop here would force every harness's unwind bound up to
+  // VEC_ELEM_CAP+1), and no Vec::push (its growth path is what must be avoided)
+  macro_rules! w {
+    ($i:expr) => {
+      if $i < n {
+        unsafe { core::ptr::write(v.as_mut_ptr().add($i), elem.clone()) };
+      }
+    };
   }
+  w!(0);
+  w!(1);
+  w!(2);
+  w!(3);
+  w!(4);
+  w!(5);
+  w!(6);
+  w!(7);
+  w!(8);
+  unsafe { v.set_len(n) };
   v
 }
 #[cfg(not(kani))]
 pub fn stub_vec_from_elem<T: Clone>(elem: T, n: usize) -> Vec<T> {
   vec![elem; n]
+}
+
+/// Build a set from explicit, already sorted slot contents (see map_from_parts).
+#[cfg(kani)]
+pub fn set_from_parts<K: Ord>(len: usize, keys: [Option<K>; CAP]) -> BTreeSet<K> {
+  BTreeSet::verif_from_parts(len, keys)
+}
+#[cfg(not(kani))]
+pub fn set_from_parts<K: Ord>(len: usize, keys: [Option<K>; CAP]) -> BTreeSet<K> {
+  let mut s = BTreeSet::new();
+  for (j, k) in keys.into_iter().enumerate() {
+    if j < len {
+      if let Some(k) = k {
+        s.insert(k);
+      }
+    }
+  }
+  s
+}
+#[cfg(kani)]
+pub fn set_is_valid<K: Ord>(s: &BTreeSet<K>) -> bool {
+  s.verif_is_valid()
+}
+#[cfg(not(kani))]
+pub fn set_is_valid<K: Ord>(_s: &BTreeSet<K>) -> bool {
+  true
+}
+
+/// kani::stub target for Vec::push.  The real push grows the buffer by realloc when
+/// len == capacity; with a symbolic len CBMC cannot prune that path, the capacity becomes
+/// symbolic after the first possible growth and every later growth is an allocation of
+/// SYMBOLIC size (measured: > 12 GB for 7 conditional pushes followed by reads).  This
+/// version grows to a CONCRETE capacity instead; more than VEC_PUSH_CAP elements in a
+/// grown Vec is outside the bound.
+pub const VEC_PUSH_CAP: usize = 16;
+#[cfg(kani)]
+pub fn stub_vec_push<T, A: std::alloc::Allocator + Clone>(v: &mut Vec<T, A>, x: T) {
+  if v.len() == v.capacity() {
+    kani::assume(v.len() < VEC_PUSH_CAP);
+    let mut nv: Vec<T, A> = Vec::with_capacity_in(VEC_PUSH_CAP, v.allocator().clone());
+    let n = v.len();
+    unsafe {
+      // one memcpy (CBMC built-in, no loop to unwind)
+      core::ptr::copy_nonoverlapping(v.as_ptr(), nv.as_mut_ptr(), n);
+      nv.set_len(n);
+      v.set_len(0);
+    }
+    core::mem::swap(v, &mut nv);
+    // nv now owns the old buffer with len 0; dropping it frees the buffer only
+  }
+  unsafe {
+    let n = v.len();
+    core::ptr::write(v.as_mut_ptr().add(n), x);
+    v.set_len(n + 1);
+  }
+}
+#[cfg(not(kani))]
+pub fn stub_vec_push<T>(v: &mut Vec<T>, x: T) {
+  v.push(x)
+}
+
+/// kani::stub target for Vec::with_capacity: concrete allocation (VEC_PUSH_CAP elements)
+/// whatever (possibly symbolic) capacity was asked for; more is outside the bound.
+#[cfg(kani)]
+pub fn stub_vec_with_capacity<T>(n: usize) -> Vec<T> {
+  kani::assume(n <= VEC_PUSH_CAP);
+  Vec::with_capacity_in(VEC_PUSH_CAP, std::alloc::Global)
+}
+#[cfg(not(kani))]
+pub fn stub_vec_with_capacity<T>(n: usize) -> Vec<T> {
+  Vec::with_capacity(n)
 }
